@@ -196,7 +196,10 @@ def opSpecEval : List String → String
 /-- `process_python_str(token)` -/
 def opLit : List String → String
   | [a] => match decS a with
-    | some t => (match pyStrLit t with
+    | some t =>
+      if !(t.length ≥ 2 && (t.head? == some 39 || t.head? == some 34) && t.getLast? == t.head? &&
+           !((t.drop 1).dropLast.contains (t.headD 0))) then "bad-token" else
+      (match pyStrLit t with
       | .ok v => "ok " ++ encS v
       | .error e => encErr e)
     | none => "bad-arg"
